@@ -89,3 +89,160 @@ def run(fn, env, max_steps=500):
         if b is None:
             raise Unsupported("pruned edge")
     return None
+
+
+# ---------------------------------------------------------------------------
+# slices: concrete evaluation of a region of a function with lvalues named by their
+# canonical text (so `ncp->rank`, `count[j]`, `*ip` are all just names in env)
+# ---------------------------------------------------------------------------
+from facts import canon, walk
+
+
+def lv_name(n):
+    n = strip(n)
+    if isinstance(n, dict) and n.get("k") == "ref":
+        return n["n"]
+    return canon(n)
+
+
+def evs(n, env, events=None):
+    if isinstance(n, dict) and n.get("k") == "pre" and isinstance(n.get("e"), dict):
+        inner = strip_pre(n["e"])
+        # a sub-expression with a side effect was already executed as its own CFG element
+        if inner.get("k") == "asg":
+            return env[lv_name(inner["a"])]
+        if inner.get("k") == "un" and inner.get("op") in ("post++", "post--", "pre++", "pre--"):
+            return env[lv_name(inner["e"])]
+        if inner.get("k") == "call":
+            return 0
+    n = strip_pre(n)
+    if not isinstance(n, dict):
+        raise Unsupported("empty")
+    k = n.get("k")
+    if "cv" in n and k != "ref":
+        return n["cv"]
+    if k in ("ref", "mem", "idx") or (k == "un" and n.get("op") == "*"):
+        nm = lv_name(n)
+        if nm in env:
+            return env[nm]
+        if "cv" in n:
+            return n["cv"]
+        raise Unsupported("value of %s" % nm)
+    if k == "un":
+        op = n["op"]
+        if op in ("post++", "post--", "pre++", "pre--"):
+            nm = lv_name(n["e"])
+            old = env[nm]
+            env[nm] = old + (1 if "++" in op else -1)
+            return old if op.startswith("post") else env[nm]
+        v = evs(n["e"], env, events)
+        if op == "!":
+            return 0 if v else 1
+        if op == "-":
+            return -v
+        raise Unsupported("unary " + op)
+    if k == "cast":
+        return evs(n["e"], env, events)
+    if k == "asg":
+        v = evs(n["b"], env, events)
+        nm = lv_name(n["a"])
+        op = n["op"]
+        if op == "=":
+            env[nm] = v
+        else:
+            old = env[nm]
+            env[nm] = {"+=": old + v, "-=": old - v, "*=": old * v, "/=": int(old / v) if v else 0,
+                       "%=": old - int(old / v) * v if v else 0}.get(op)
+            if env[nm] is None:
+                raise Unsupported("assignment " + op)
+        return env[nm]
+    if k == "bin":
+        op = n["op"]
+        if op == "&&":
+            return 1 if (evs(n["a"], env, events) and evs(n["b"], env, events)) else 0
+        if op == "||":
+            return 1 if (evs(n["a"], env, events) or evs(n["b"], env, events)) else 0
+        if op == ",":
+            evs(n["a"], env, events)
+            return evs(n["b"], env, events)
+        a, b = evs(n["a"], env, events), evs(n["b"], env, events)
+        if op in ("/", "%") and b == 0:
+            raise Unsupported("division by zero")
+        f = {"+": lambda: a + b, "-": lambda: a - b, "*": lambda: a * b, "/": lambda: int(a / b),
+             "%": lambda: a - int(a / b) * b, "<": lambda: int(a < b), ">": lambda: int(a > b),
+             "<=": lambda: int(a <= b), ">=": lambda: int(a >= b), "==": lambda: int(a == b),
+             "!=": lambda: int(a != b), "&": lambda: a & b, "|": lambda: a | b}.get(op)
+        if f is None:
+            raise Unsupported("operator " + op)
+        return f()
+    if k == "cond":
+        return evs(n["a"], env, events) if evs(n["c"], env, events) else evs(n["b"], env, events)
+    if k == "call":
+        args = []
+        for a in n.get("args", []):
+            try:
+                args.append(evs(a, env, events))
+            except Unsupported:
+                args.append(None)
+        if events is not None:
+            events.append((n.get("fn"), args, n.get("l")))
+        return 0
+    if k == "sizeof":
+        return n.get("cv", 0)
+    raise Unsupported("expression kind %s" % k)
+
+
+def run_region(fn, start, stop_blocks, env, events=None, max_steps=5000, call_hook=None):
+    """interpret fn from program point start=(block, idx) until a block in stop_blocks (or the exit);
+    calls are recorded as events and return 0 (or call_hook(name, args, env))."""
+    b, i = start
+    steps = 0
+    first = True
+    while b != fn.exit and (first or b not in stop_blocks):
+        first = False
+        steps += 1
+        if steps > max_steps:
+            raise Unsupported("step budget")
+        blk = fn.blocks[b]
+        for j in range(i, len(blk.elems)):
+            e = blk.elems[j]
+            k = e.get("k")
+            if k == "ret":
+                env["$ret"] = evs(e["e"], env, events) if e.get("e") is not None else None
+                return env
+            if k == "decl":
+                for v in e.get("vars", []):
+                    if v.get("init") is not None:
+                        try:
+                            env[v["n"]] = evs(v["init"], env, events)
+                        except Unsupported:
+                            env.pop(v["n"], None)
+            elif k == "call":
+                args = []
+                for a in e.get("args", []):
+                    try:
+                        args.append(evs(a, env, None))
+                    except Unsupported:
+                        args.append(None)
+                if events is not None:
+                    events.append((e.get("fn"), args, e.get("l")))
+                if call_hook:
+                    call_hook(e, args, env)
+            elif k in ("asg", "un"):
+                try:
+                    evs(e, env, events)
+                except Unsupported:
+                    if k == "asg":
+                        env.pop(lv_name(e["a"]), None)
+            # bare expressions / conditions: evaluated at the branch
+        i = 0
+        c = blk.cond
+        if c is not None and len(blk.succs) == 2:
+            b = blk.succs[0] if evs(c, env, None) else blk.succs[1]
+        elif blk.succs:
+            b = blk.succs[0]
+        else:
+            break
+        if b is None:
+            raise Unsupported("pruned edge")
+    return env
